@@ -1,3 +1,4 @@
 import Cgm.Lemmas.AuditCmd
 import Cgm.E2E.C02
+import Cgm.E2E.C02g
 #audit_namespace Cg.E2E.C02
